@@ -31,7 +31,7 @@ Task: make ONE small source change to the noodles library code that BREAKS this 
 
 Other developers already made these changes for the same property, so do something of a DIFFERENT kind, in a different function and preferably a different file, exercising a different clause of the property: {others}. Prefer a clause or an anchor file that looks less obvious (async twins, multithreaded variants, index files, the less common format or code path).
 
-Then write a demonstration: a small Rust program (own cargo project under /tmp/wt/{w}-out/demo/ with path dependencies on the needed noodles crates under /tmp/wt/{w}; copy /tmp/wt/{w}/Cargo.lock next to the demo's Cargo.toml; add an empty `[workspace]` table) that exercises the property over a reasonable set of inputs and exits non-zero when the property is violated. It must FAIL with your change applied and PASS on the unmodified code (`git stash` / `git stash pop`). Verify both, using `CARGO_TARGET_DIR=/tmp/wt/{w}-target`.
+Then write a demonstration: a small Rust program (own cargo project under /tmp/wt/{w}-out/demo/ with path dependencies on the needed noodles crates under /tmp/wt/{w}; copy /tmp/wt/{w}/Cargo.lock next to the demo's Cargo.toml; add an empty `[workspace]` table) that exercises the property over a reasonable set of inputs and exits non-zero when the property is violated. It must FAIL with your change applied and PASS on the unmodified code (revert with `git apply -R /tmp/wt/{w}-out/patch.diff` and re-apply with `git apply`; do NOT use `git stash`, its ref is shared between worktrees). Verify both, using `CARGO_TARGET_DIR=/tmp/wt/{w}-target`.
 
 Deliverables in /tmp/wt/{w}-out/: patch.diff (`git diff` of ONLY the noodles source change), demo/ (without build output), notes.md (what the change is, why it breaks the property, what input/history it needs, commands and results). Leave the worktree with the change applied. Keep your final answer short: the change, the file, test result, demo result."""
     open(f'/tmp/wt/{w}-prompt.txt', 'w').write(prompt)
